@@ -130,6 +130,13 @@ P['C10']={
  "lemmas":["L-onlysid-ext","L-timedout-monotone"],
  "required":[MS+"GetTokenResponse:refine:SessionStore.GetTokenResponse.timeout", MS+"GetAuthorizationState:refine:SessionStore.GetAuthorizationState.timeout", MS+"GetTokenResponse:refine:SessionStore.GetTokenResponse.kept_inside", H+"Process:post:ok_not_timed_out"],
  "note":"memory store only (see level note)"}
+I="internal."
+P['C17']={
+ "functions":[I+"LocalConfigFile.Validate",I+"mergeAndValidateOIDCConfigs",I+"applyOIDCDefaults",I+"validateURLs",I+"validateOIDCConfigURLs",I+"validateURL",I+"hasRootPath",I+"isRootPath"],
+ "sweep":["internal.init"],
+ "panics":True,
+ "required":[I+"LocalConfigFile.Validate:post:typed", I+"LocalConfigFile.Validate:post:resolved", I+"mergeAndValidateOIDCConfigs:post:no_override", I+"mergeAndValidateOIDCConfigs:pre@call:applyOIDCDefaults.config_nonnil", I+"applyOIDCDefaults:post:openid", I+"validateURLs:post:callbacks", I+"mergeAndValidateOIDCConfigs:panic:"],
+ "note":"loading never panics (every instruction that can panic in Validate and its helpers, for any well-formed protojson tree); accepted implies every filter has a type, the openid scope is present, callback URIs parse and are not root; the generated ValidateAll and proto.Clone/Merge are trusted contracts"}
 P['C03']={
  "posts":{
   H+"retrieveTokens":["login_expiry","redirect_back","bind","consumed","count","view"],
